@@ -429,6 +429,12 @@ func (handle *writeTxnHandle) Commit() ReadTxn {
 	}
 	txn.tableEntries = nil
 
+	// Tables registered after this transaction started are not in
+	// 'root', keep them.
+	if len(currentRoot) > len(root) {
+		root = append(root, currentRoot[len(root):]...)
+	}
+
 	// Commit the transaction to build the new root tree and then
 	// atomically store it.
 	db.root.Store(&root)
